@@ -8,6 +8,9 @@ dst = '/verif/seeded/%s' % sid
 os.makedirs(dst, exist_ok=True)
 demos = []
 for fn in os.listdir(src):
+    if os.path.isdir(os.path.join(src, fn)):
+        shutil.copytree(os.path.join(src, fn), os.path.join(dst, fn), dirs_exist_ok=True)
+        continue
     shutil.copy(os.path.join(src, fn), os.path.join(dst, fn))
     if fn.endswith('.rs'):
         demos.append(fn)
